@@ -92,6 +92,15 @@ mod stages;
 
 pub(crate) use stages::Stages;
 
+/// Names of the private stage list terminators, for verification harnesses only.
+#[cfg(brood_verif)]
+pub(crate) mod verif_names {
+    pub(crate) use super::{
+        stage::Null as StageNull,
+        stages::Null as StagesNull,
+    };
+}
+
 use crate::{
     doc,
     registry,
